@@ -326,6 +326,11 @@ func (en *DefaultEngine) runFirst(ctx context.Context) (bool, error) {
 	if en.first == nil {
 		return true, nil
 	}
+	if en.st.MatchFlag(state.FLAG_TERMINATE, true) {
+		// the session is blocked: the first function does not run either, and there is nothing to show
+		en.execd = true
+		return false, nil
+	}
 	logg.DebugCtxf(ctx, "start pre-VM check")
 	en.ca.Push()
 	rs := resource.NewMenuResource()
